@@ -277,4 +277,55 @@ mod verif_kani_numbers {
         assert!(matches!(c, Some(f) if f.is_nan() && f.is_sign_negative()), "-nan is not a negative NaN");
         kani::cover!(a.is_some());
     }
+
+    // ------------------------------------------------------------------ K10l: dec-int lexing, tiny tokens
+    // dec_int on every valid-UTF-8 input of N bytes against the ABNF
+    //   dec-int = [ minus / plus ] unsigned-dec-int
+    //   unsigned-dec-int = DIGIT / digit1-9 1*( DIGIT / underscore DIGIT )
+    // as a prefix matcher: Some(len) = longest prefix derivable with the parser's committed
+    // choice (an underscore must be followed by a digit: hard error), None = no match.
+    fn dec_int_oracle(s: &[u8]) -> Result<Option<usize>, ()> {
+        let mut i = 0;
+        if i < s.len() && (s[i] == b'+' || s[i] == b'-') { i += 1; }
+        if i >= s.len() || !s[i].is_ascii_digit() { return Ok(None); }
+        if s[i] == b'0' { return Ok(Some(i + 1)); }
+        i += 1;
+        loop {
+            if i < s.len() && s[i].is_ascii_digit() { i += 1; continue; }
+            if i < s.len() && s[i] == b'_' {
+                if i + 1 < s.len() && s[i + 1].is_ascii_digit() { i += 2; continue; }
+                return Err(());     // underscore not followed by a digit: cut error
+            }
+            return Ok(Some(i));
+        }
+    }
+
+    fn dec_int_check<const N: usize>() {
+        let buf: [u8; N] = kani::any();
+        let text = match core::str::from_utf8(&buf) {
+            Ok(t) => t,
+            Err(_) => return,
+        };
+        let mut input = new_input(text);
+        let r = dec_int(&mut input);
+        let want = dec_int_oracle(&buf);
+        match (&r, want) {
+            (Ok(tok), Ok(Some(n))) => {
+                assert!(tok.len() == n, "dec-int token has the wrong length");
+                assert!(input.eof_offset() == N - n, "dec-int consumed the wrong number of bytes");
+            }
+            (Err(winnow::error::ErrMode::Backtrack(_)), Ok(None)) => {}
+            (Err(winnow::error::ErrMode::Cut(_)), Err(())) => {}
+            (Ok(_), _) => assert!(false, "dec-int accepts a token the grammar rejects"),
+            (Err(_), _) => assert!(false, "dec-int rejects or mis-classifies a token of the grammar"),
+        }
+        kani::cover!(r.is_ok());
+        kani::cover!(r.is_err());
+        core::mem::forget(r);
+    }
+
+    #[kani::proof]
+    #[kani::unwind(7)]
+    #[kani::stub(alloc::fmt::format, stub_format)]
+    fn k10l_dec_int3() { dec_int_check::<3>(); }
 }
